@@ -1,6 +1,7 @@
 #![allow(dead_code)]
 mod gram;
 mod lex;
+mod limits;
 mod parse;
 mod util;
 
@@ -18,6 +19,7 @@ fn main() {
         "parse-run" => parse::isolated(rest, "parse-child"),
         "parse-child" => parse::child(rest),
         "parse-gen" => parse::gen(rest),
+        "limits-replay" => limits::replay(rest),
         _ => {
             eprintln!("unknown command {cmd:?}");
             std::process::exit(2);
